@@ -8,18 +8,25 @@ rows = [json.loads(l) for l in open('/verif/tools/mutation_sweep.jsonl')]
 n_first = len(rows)
 if os.path.exists('/verif/tools/mutation_sweep_stmt.jsonl'):
     rows += [json.loads(l) for l in open('/verif/tools/mutation_sweep_stmt.jsonl')]
+n_stmt = len(rows) - n_first
+if os.path.exists('/verif/tools/mutation_sweep_helpers.jsonl'):
+    rows += [json.loads(l) for l in open('/verif/tools/mutation_sweep_helpers.jsonl')]
+n_help = len(rows) - n_first - n_stmt
 WHY = {
  'unused-constant': 'the quire constant `ONE` is not used by any operation the three properties speak about (nor anywhere in the crate)',
- 'identity': 'the mutated expression is the same function (`x ^ false` vs `x | false`; a mask bit that is always zero after normalisation; `shift < 0` vs `shift <= 0` where a shift by 0 is the same in both directions; an initial value that every path overwrites; a loop bound beyond the 8 limbs; `i == 8` never true so limb 7 takes the general branch with a zero incoming carry)',
+ 'identity': 'the mutated expression is the same function (`x ^ false` vs `x | false`; a mask bit that is always zero after normalisation or after `bits << 2`; a constant whose lowest bit is shifted out because the shift count is at least 1; `shift < 0` vs `shift <= 0` where a shift by 0 is the same in both directions; an initial value that every path overwrites; a loop bound beyond the 8 limbs; `i == 8` never true so limb 7 takes the general branch with a zero incoming carry)',
  'renormalisation': 'value-preserving renormalisation: the product is placed at fixed-point position 4k+e (2k+e); carrying e into k, or shifting the significand by one and adding one to the scale, names the same position, and no set bit is shifted out',
  'single-posit-dead': 'in `fdp_one` (a single posit, not a product) the branch is unreachable or the operand is always zero: exponent sum never exceeds the field, the significand never carries, a posit is at least minpos so its lowest limb(s) are zero and it never reaches limb 0',
  'pxe2': 'code for the generic-width posits PxE2<N> (properties C13/C14, not decided by this family); not exercised by the C04/C12 simulator by design',
  'no-linalg': 'the mutant does not compile with softposit\'s optional `linalg` feature; the wrapper fell back to a simulator without the matrix client, which is silent by construction',
+ 'not-reached': 'in `P32E2::separate_bits` (the three-value form), which the posit arithmetic uses and the quire code does not (it calls `separate_bits_tmp`)',
  'other-module': 'the statement declares the quire\'s `math` sub-module (functions the three properties do not speak about)',
  'in-comment': 'the mutated text is inside a /* block comment */',
  'still-in-range': 'property-preserving: the sampler still returns only patterns in [0, pattern(1)) — a narrower or shifted range, OR/XOR of low bits that cannot carry, or any arithmetic inside `sub_one`, whose result is saturated to 0..=0x3FFF by the clamp of fix c448680 (C19 constrains the range, not the distribution)',
 }
 RULES = [
+ ('src/p8e0.rs', {123, 129, 133, 157, 160}, 'identity'), ('src/p16e1.rs', {136, 142, 146, 173, 176}, 'identity'),
+ ('src/p32e2.rs', {136, 142, 146, 174, 177}, 'identity'), ('src/p32e2.rs', {126, 127}, 'not-reached'),
  ('src/quire8.rs', {4}, 'other-module'), ('src/quire16.rs', {4}, 'other-module'),
  ('src/quire16/ops.rs', {43}, 'renormalisation'), ('src/quire16/ops.rs', {97}, 'single-posit-dead'),
  ('src/quire16/convert.rs', {106}, 'identity'),
@@ -51,7 +58,7 @@ un = [r for r in surv if why(r) is None]
 byk = collections.Counter(why(r) for r in surv)
 killed_by = collections.Counter((r['by'], r['detail'].split('clause ')[1].split(' ')[0] if 'clause ' in r['detail'] else 'hang/abort') for r in rows if r['status'] == 'killed')
 out = ['# First-order mutation sweep of the code behind C04 / C12 / C19', '',
- f'{len(rows)} mutants ({n_first} token-level: operator / literal / boolean / negation; {len(rows) - n_first} statement-level: statement deleted, branch or loop condition forced) — `tools/mutation_sweep.py`, quick checks with VERIF_RUNS=150000, checked profile only: '
+ f'{len(rows)} mutants ({n_first} token-level: operator / literal / boolean / negation; {n_stmt} statement-level: statement deleted, branch or loop condition forced; {n_help} token-level in the shared posit helpers sign / regime / pack / separate_bits) — `tools/mutation_sweep.py`, quick checks with VERIF_RUNS=150000, checked profile only: '
  f'**{c["killed"]} killed**, {c["nobuild"]} do not compile, **{c["survived"]} survive — all {len(surv) - len(un)} explained below** '
  f'({len(un)} unexplained).', '',
  'A survivor is either an equivalent mutant, a mutant that still satisfies the property, or code outside the three properties; none is a blind spot of the checks.', '',
